@@ -21,6 +21,7 @@
 #include "jls/buffer.h"
 #include "jls/cdef.h"
 #include <inttypes.h>
+#include <stdbool.h>
 #include <stdio.h>
 
 
@@ -38,6 +39,9 @@
 } while (0)
 
 
+// Return on error from within jls_copy: release everything that was opened.
+#define COPY_ROE(x) do { rc = (x); if (rc) { goto exit; } } while (0)
+
 int32_t jls_copy(const char * src, const char * dst,
                  jls_copy_msg_fn msg_fn, void * msg_user_data,
                  jls_copy_progress_fn progress_fn, void * progress_user_data) {
@@ -53,8 +57,10 @@ int32_t jls_copy(const char * src, const char * dst,
 
     rc = jls_raw_open(&rd, src, "r");
     if (rc && (rc != JLS_ERROR_TRUNCATED)) {
+        jls_buf_free(buf);
         return rc;
     }
+    const bool src_unclosed = (rc == JLS_ERROR_TRUNCATED);  // may end in a partially written chunk
     offset = jls_raw_chunk_tell(rd);
     jls_raw_seek_end(rd);
     int64_t offset_end = jls_raw_chunk_tell(rd);
@@ -63,6 +69,7 @@ int32_t jls_copy(const char * src, const char * dst,
     rc = jls_wr_open(&wr, dst);
     if (rc) {
         jls_raw_close(rd);
+        jls_buf_free(buf);
         return rc;
     }
 
@@ -75,24 +82,35 @@ int32_t jls_copy(const char * src, const char * dst,
             jls_raw_chunk_seek(rd, offset + 1);
             rc = jls_raw_chunk_scan(rd);
             if (rc) {
+                if (src_unclosed) {
+                    rc = 0;  // the torn tail of a file that was never closed: end of the data
+                    break;
+                }
                 MSG_ERROR("jls_raw_chunk_scan", rc);
-                return rc;
+                goto exit;
             }
+            continue;  // hdr is not valid: read the header of the chunk that was found
         }
         // printf("%" PRIi64 " %d %" PRIu32 "\n", offset, hdr.tag, hdr.payload_length);
         // room for the payload, its padding (at most 7 bytes) and the CRC (4 bytes)
         rc = jls_buf_realloc(buf, ((size_t) hdr.payload_length) + 12);
         if (rc) {
             MSG_ERROR("jls_buf_realloc", rc);
-            return JLS_ERROR_NOT_ENOUGH_MEMORY;
+            rc = JLS_ERROR_NOT_ENOUGH_MEMORY;
+            goto exit;
         }
         rc = jls_raw_rd_payload(rd, (uint32_t) buf->alloc_size, buf->start);
         if (rc) {
             MSG_ERROR("jls_raw_rd_payload", rc);
             rc = jls_raw_chunk_next(rd);
             if (rc) {
+                if (src_unclosed) {
+                    rc = 0;  // the last chunk of a file that was never closed is incomplete
+                    break;
+                }
                 MSG_ERROR("jls_raw_chunk_next", rc);
-                return JLS_ERROR_IO;
+                rc = JLS_ERROR_IO;
+                goto exit;
             }
             offset = jls_raw_chunk_tell(rd);
             continue;
@@ -106,36 +124,36 @@ int32_t jls_copy(const char * src, const char * dst,
             case JLS_TAG_SOURCE_DEF: {
                 struct jls_source_def_s source;
                 source.source_id = hdr.chunk_meta;
-                ROE(jls_buf_rd_skip(buf, 64));
-                ROE(jls_buf_rd_str(buf, (const char **) &source.name));
-                ROE(jls_buf_rd_str(buf, (const char **) &source.vendor));
-                ROE(jls_buf_rd_str(buf, (const char **) &source.model));
-                ROE(jls_buf_rd_str(buf, (const char **) &source.version));
-                ROE(jls_buf_rd_str(buf, (const char **) &source.serial_number));
+                COPY_ROE(jls_buf_rd_skip(buf, 64));
+                COPY_ROE(jls_buf_rd_str(buf, (const char **) &source.name));
+                COPY_ROE(jls_buf_rd_str(buf, (const char **) &source.vendor));
+                COPY_ROE(jls_buf_rd_str(buf, (const char **) &source.model));
+                COPY_ROE(jls_buf_rd_str(buf, (const char **) &source.version));
+                COPY_ROE(jls_buf_rd_str(buf, (const char **) &source.serial_number));
                 if (source.source_id != 0) {
-                    ROE(jls_wr_source_def(wr, &source));
+                    COPY_ROE(jls_wr_source_def(wr, &source));
                 }
                 break;
             }
             case JLS_TAG_SIGNAL_DEF: {
                 struct jls_signal_def_s signal;
                 signal.signal_id = hdr.chunk_meta;
-                ROE(jls_buf_rd_u16(buf, &signal.source_id));
-                ROE(jls_buf_rd_u8(buf, &signal.signal_type));
-                ROE(jls_buf_rd_skip(buf, 1));
-                ROE(jls_buf_rd_u32(buf, &signal.data_type));
-                ROE(jls_buf_rd_u32(buf, &signal.sample_rate));
-                ROE(jls_buf_rd_u32(buf, &signal.samples_per_data));
-                ROE(jls_buf_rd_u32(buf, &signal.sample_decimate_factor));
-                ROE(jls_buf_rd_u32(buf, &signal.entries_per_summary));
-                ROE(jls_buf_rd_u32(buf, &signal.summary_decimate_factor));
-                ROE(jls_buf_rd_u32(buf, &signal.annotation_decimate_factor));
-                ROE(jls_buf_rd_u32(buf, &signal.utc_decimate_factor));
-                ROE(jls_buf_rd_skip(buf, 92));
-                ROE(jls_buf_rd_str(buf, (const char **) &signal.name));
-                ROE(jls_buf_rd_str(buf, (const char **) &signal.units));
+                COPY_ROE(jls_buf_rd_u16(buf, &signal.source_id));
+                COPY_ROE(jls_buf_rd_u8(buf, &signal.signal_type));
+                COPY_ROE(jls_buf_rd_skip(buf, 1));
+                COPY_ROE(jls_buf_rd_u32(buf, &signal.data_type));
+                COPY_ROE(jls_buf_rd_u32(buf, &signal.sample_rate));
+                COPY_ROE(jls_buf_rd_u32(buf, &signal.samples_per_data));
+                COPY_ROE(jls_buf_rd_u32(buf, &signal.sample_decimate_factor));
+                COPY_ROE(jls_buf_rd_u32(buf, &signal.entries_per_summary));
+                COPY_ROE(jls_buf_rd_u32(buf, &signal.summary_decimate_factor));
+                COPY_ROE(jls_buf_rd_u32(buf, &signal.annotation_decimate_factor));
+                COPY_ROE(jls_buf_rd_u32(buf, &signal.utc_decimate_factor));
+                COPY_ROE(jls_buf_rd_skip(buf, 92));
+                COPY_ROE(jls_buf_rd_str(buf, (const char **) &signal.name));
+                COPY_ROE(jls_buf_rd_str(buf, (const char **) &signal.units));
                 if (signal.signal_id != 0) {
-                    ROE(jls_wr_signal_def(wr, &signal));
+                    COPY_ROE(jls_wr_signal_def(wr, &signal));
                 }
                 break;
             }
@@ -147,7 +165,7 @@ int32_t jls_copy(const char * src, const char * dst,
                 struct jls_fsr_data_s * data = (struct jls_fsr_data_s *) buf->start;
                 // future: handle omitted data by looking at level 1 index & summary
                 // future: decompress if needed
-                ROE(jls_wr_fsr(wr, signal_id, data->header.timestamp,
+                COPY_ROE(jls_wr_fsr(wr, signal_id, data->header.timestamp,
                                data->data, data->header.entry_count));
                 break;
             }
@@ -165,7 +183,7 @@ int32_t jls_copy(const char * src, const char * dst,
             case JLS_TAG_TRACK_ANNOTATION_DATA: {
                 uint16_t signal_id = hdr.chunk_meta & 0x0fff;
                 struct jls_annotation_s * data = (struct jls_annotation_s *) buf->start;
-                ROE(jls_wr_annotation(wr, signal_id, data->timestamp, data->y,
+                COPY_ROE(jls_wr_annotation(wr, signal_id, data->timestamp, data->y,
                             data->annotation_type, data->group_id, data->storage_type,
                             data->data, data->data_size));
                 break;
@@ -178,7 +196,7 @@ int32_t jls_copy(const char * src, const char * dst,
             case JLS_TAG_TRACK_UTC_DATA: {
                 uint16_t signal_id = hdr.chunk_meta & 0x0fff;
                 struct jls_utc_data_s * data = (struct jls_utc_data_s *) buf->start;
-                ROE(jls_wr_utc(wr, signal_id, data->header.timestamp, data->timestamp));
+                COPY_ROE(jls_wr_utc(wr, signal_id, data->header.timestamp, data->timestamp));
                 break;
             }
             case JLS_TAG_TRACK_UTC_INDEX: break;
@@ -187,7 +205,7 @@ int32_t jls_copy(const char * src, const char * dst,
             case JLS_TAG_USER_DATA: {
                 enum jls_storage_type_e storage_type = (hdr.chunk_meta >> 12) & 0x000f;
                 if (storage_type != JLS_STORAGE_TYPE_INVALID) {
-                    ROE(jls_wr_user_data(wr, hdr.chunk_meta & 0x0fff, (hdr.chunk_meta >> 12) & 0x000f,
+                    COPY_ROE(jls_wr_user_data(wr, hdr.chunk_meta & 0x0fff, (hdr.chunk_meta >> 12) & 0x000f,
                                          buf->start, hdr.payload_length));
                 }
                 break;
@@ -206,7 +224,12 @@ int32_t jls_copy(const char * src, const char * dst,
     if (NULL != progress_fn) {
         progress_fn(progress_user_data, 1.0);
     }
+    rc = 0;
+
+exit:
+    // the destination is closed on every path, so that it is a valid (possibly partial) file
     jls_raw_close(rd);
     jls_wr_close(wr);
-    return 0;
+    jls_buf_free(buf);
+    return rc;
 }
